@@ -701,6 +701,13 @@ func (env *SpecEnv) evalCall(e *SExpr) *Value {
 			return &Value{K: VScalar, SpecKind: "mmap", T: m.Elem(), S: env.st.loadLeaf(mapClass(m)+"#val", SArray(ks, es), x.S)}
 		case "zeros":
 			return &Value{K: VScalar, SpecKind: "mmap", T: types.Typ[types.Int], S: ConstArray(SArray(SInt, SInt), mkInt(0))}
+		case "addr":
+			// addr(x.f): the address of an embedded struct / field location (matches Go's &x.f)
+			lv := env.specLV(e.Args[0])
+			if lv == nil {
+				specFail("addr needs a field location")
+			}
+			return &Value{K: VScalar, T: types.NewPointer(lv.T), S: aliasAddr(env.sink(), lv), Alias: lv}
 		case "onceDone":
 			// onceDone(x.once): whether Do has already run on that sync.Once field
 			lv := env.specLV(e.Args[0])
